@@ -283,6 +283,65 @@ fn check_case(case: &Case, o: &mut Outcome) {
             if got != want {
                 let k = (0..want.len().min(got.len())).find(|k| got[*k] != want[*k]).unwrap_or(0);
                 vfail!(o, "prepare_prove_input differs from the documented layout at byte {k} (lengths {} vs {})", got.len(), want.len());
+                return;
+            }
+            // the decoder side: an independently encoded proving request (any signal length, incl.
+            // empty) must decode to exactly these values; the membership path comes from the tree
+            thread_local! {
+                static TREE: std::cell::RefCell<Option<rln::poseidon_tree::PoseidonTree>> = const { std::cell::RefCell::new(None) };
+            }
+            let idx = (*index as usize) % (1usize << 20);
+            let req = cr::enc_prove_input(&s.big(), idx as u64, &limit.big(), &mid.big(), &e.big(), &sig);
+            let res = TREE.with(|t| {
+                let mut t = t.borrow_mut();
+                if t.is_none() {
+                    use zerokit_utils::ZerokitMerkleTree;
+                    *t = rln::poseidon_tree::PoseidonTree::default(20).ok();
+                }
+                let tree = t.as_mut().expect("tree");
+                guarded(|| rp::proof_inputs_to_rln_witness(tree, &req).map_err(|e| e.to_string()))
+            });
+            match res {
+                Ok(Ok((w, read))) => {
+                    // (the returned count is undocumented — it excludes the signal — and is not judged)
+                    let _ = read;
+                    let enc = g!(o, "serialize_witness", rp::serialize_witness(&w).map_err(|e| e.to_string()));
+                    let enc = match enc {
+                        Ok(b) => b,
+                        Err(e) => {
+                            // the witness encoder applies the software range check on (message id, limit)
+                            if mid.big() < limit.big() {
+                                vfail!(o, "serialize_witness failed on a witness decoded from a well-formed proving request: {e}");
+                            } else {
+                                o.label("prove-input/message-id-not-below-limit");
+                            }
+                            return;
+                        }
+                    };
+                    match cr::dec_witness(&enc) {
+                        Ok(d) => {
+                            let x = crate::models::formulas::hash_to_field_ref(&sig);
+                            if d.s != s.big() || d.limit != limit.big() || d.mid != mid.big() || d.e != e.big() || d.x != x {
+                                vfail!(o, "proof_inputs_to_rln_witness decoded an independently encoded request (signal {} bytes) to different values", sig.len());
+                            }
+                            let want_bits: Vec<u8> = (0..20).map(|k| ((idx >> k) & 1) as u8).collect();
+                            if d.bits != want_bits || d.path.len() != 20 {
+                                vfail!(o, "proof_inputs_to_rln_witness: path of leaf {idx} has bits {:?} / {} elements", d.bits, d.path.len());
+                            }
+                        }
+                        Err(e) => vfail!(o, "witness produced from a proving request does not follow the witness layout: {e}"),
+                    }
+                }
+                Ok(Err(e)) => {
+                    // the software range check on (message id, limit) is the only legitimate refusal
+                    let in_range = mid.big() < limit.big();
+                    if in_range {
+                        vfail!(o, "proof_inputs_to_rln_witness refused a well-formed proving request (signal {} bytes, index {idx}): {e}", sig.len());
+                    } else {
+                        o.label("prove-input/refused-message-id-not-below-limit");
+                    }
+                }
+                Err(pn) => vfail!(o, "proof_inputs_to_rln_witness panicked on a well-formed proving request: {}", pn.0),
             }
         }
         Case::VerifyInput { head, signal } => {
@@ -303,7 +362,7 @@ impl Property for C10 {
     }
     fn rule(&self) -> String {
         "values of every encodable type: field elements (boundary-weighted incl. 0, p-1 and leading-zero-byte values), Vec<Fr>/Vec<u8> of length 0..64, index lists and usize incl. 0, 2^32-1, 2^32, 2^63, witnesses with any path length/direction bytes, proof values, identity tuples, prove/verify requests with any signal; \
-         checked: zerokit encoder == independent encoder, zerokit decoder on independent encoding == value, independent decoder on zerokit encoding == value, JSON and byte->JSON->byte round trips, bigint-JSON decimal strings, and one generated truncation + one extension of every witness encoding is not accepted. \
+         checked: zerokit encoder == independent encoder, proving requests encoded independently (any signal length incl. empty) decode through proof_inputs_to_rln_witness to the same values and the leaf's direction bits, zerokit decoder on independent encoding == value, independent decoder on zerokit encoding == value, JSON and byte->JSON->byte round trips, bigint-JSON decimal strings, and one generated truncation + one extension of every witness encoding is not accepted. \
          non-trivial = value with a zero-length vector, a leading-zero field element, or an integer >= 2^32; distinct by case content".into()
     }
     fn assumptions(&self) -> Vec<String> {
